@@ -227,8 +227,12 @@ def run_worker(ctx, cases, fn, stall):
         with open(inp, "w") as f:
             json.dump(cases[start:], f)
         open(outp, "w").close()
+        errp = os.path.join(wd, "err_%d.txt" % start)
+        errf = open(errp, "wb")
+        # own session: a hang is ended by killing the whole process group (children forked by a
+        # property's impl included); stderr goes to a file so an orphan cannot block a pipe read
         p = subprocess.Popen([PY, "-m", "harness.worker", ctx.prop.__name__, fn, inp, outp],
-                             env=env, cwd=VERIF, stdout=subprocess.DEVNULL, stderr=subprocess.PIPE)
+                             env=env, cwd=VERIF, stdout=subprocess.DEVNULL, stderr=errf, start_new_session=True)
         last_size, last_t = 0, time.time()
         killed = False
         while p.poll() is None:
@@ -237,10 +241,22 @@ def run_worker(ctx, cases, fn, stall):
             if sz != last_size:
                 last_size, last_t = sz, time.time()
             elif time.time() - last_t > stall:
-                p.kill(); killed = True
+                killed = True
                 break
-        err = p.stderr.read().decode(errors="replace") if p.stderr else ""
+        if killed or p.poll() is None:
+            try:
+                os.killpg(p.pid, 9)
+            except OSError:
+                p.kill()
+        else:
+            try:                      # reap stragglers of a worker that exited by itself
+                os.killpg(p.pid, 9)
+            except OSError:
+                pass
         p.wait()
+        errf.close()
+        with open(errp, "rb") as ef:
+            err = ef.read()[-20000:].decode(errors="replace")
         done = 0
         with open(outp) as f:
             for line in f:
@@ -377,9 +393,13 @@ def coq_props(ctx):
         if bad:
             res["errors"].append("forbidden constructs: " + "; ".join(bad[:10]))
         targets = [rel[:-2] + ".vo"]
-        if getattr(prop, "EXTRACT", None):
-            targets.append(prop.EXTRACT[0][:-2] + ".vo")
         t = time.time()
+        if getattr(prop, "EXTRACT", None):
+            # the executable model is rebuilt first and on its own: a proof file that fails must not
+            # stop make before the model reflects the regenerated Gen files (the search relies on it)
+            rc0, out0 = coq_make([prop.EXTRACT[0][:-2] + ".vo"], timeout=ctx.n(2400, 3400))
+            if rc0 != 0:
+                res["errors"].append("extraction target failed to build: " + out0.strip()[-600:])
         rc, out = coq_make(targets, timeout=ctx.n(2400, 3400))
         ctx.timings["coq_make"] = round(time.time() - t, 1)
         res["log"] = out[-4000:]
@@ -431,8 +451,10 @@ def run_coqchk(prop):
     independent checker and reports the axioms of the whole context."""
     mod = "Centro." + prop.PROPS_FILE[len("theories/"):-2].replace("/", ".")
     with CoqLock():
-        r = subprocess.run(["timeout", "1500", "coqchk", "-silent", "-o", "-R", "theories", "Centro", mod],
-                           cwd=COQ, capture_output=True, text=True)
+        # -bytecode-compiler yes: re-check vm_compute proofs (finite sweeps) with the VM, which is in the
+        # trusted base of those proofs anyway; without it the C05 cone takes > 20 min
+        r = subprocess.run(["timeout", "3000", "coqchk", "-silent", "-o", "-bytecode-compiler", "yes",
+                            "-R", "theories", "Centro", mod], cwd=COQ, capture_output=True, text=True)
     out = r.stdout + r.stderr
     res = {"module": mod, "rc": r.returncode}
     if r.returncode != 0 or "CONTEXT SUMMARY" not in out:
